@@ -180,6 +180,10 @@ Section Iso.
     end.
 End Iso.
 
+(* PathMatch::match on plain file names (no separators, no wildcards) is equality; the general
+   matcher is C31's model.  Instance used by the extracted executable and the witnesses. *)
+Definition pm_plain (pattern path : str) : bool := str_eqb pattern path.
+
 (* a freshly constructed CppCheck: the run's suppression lists, nothing else *)
 Definition fresh_state (nomsg nofail : list supp) : istate := mkI (mkL nomsg nofail [] false) [] [].
 
